@@ -59,6 +59,13 @@ def gen(c):
                 add("trunc:cbc:len%d:%d" % (n, cut), seq=seq, hdr3=HDR_TLS12, msg=body[:len(body) - cut], touched=1, **base)
         for ext in (1, 16):
             add("extend:cbc:len%d:%d" % (n, ext), seq=seq, hdr3=HDR_TLS12, msg=body + rb(ext), touched=1, **base)
+        # the same through tls_record_decrypt, which is handed the record and its size: genuine; extended with the header's length field left as it was (1, 15, 16,
+        # 32 octets) and with the field raised to match; cut with the field left as it was
+        add("open:cbc-record:len%d" % n, seq=seq, hdr3=HDR_TLS12, msg=body, hlen=len(body), touched=0, **base)
+        for ext in (1, 15, 16, 32):
+            add("extend:cbc-record:len%d:%d:hdr-unchanged" % (n, ext), seq=seq, hdr3=HDR_TLS12, msg=body + rb(ext), hlen=len(body), touched=1, **base)
+            add("extend:cbc-record:len%d:%d:hdr-raised" % (n, ext), seq=seq, hdr3=HDR_TLS12, msg=body + rb(ext), hlen=len(body) + ext, touched=1, **base)
+        add("trunc:cbc-record:len%d:16:hdr-unchanged" % n, seq=seq, hdr3=HDR_TLS12, msg=body[:len(body) - 16], hlen=len(body), touched=1, **base)
         for d in (1, 2, 255, 256, 1 << 32, (1 << 64) - 1):
             s2 = ((int.from_bytes(seq, "big") + d) % (1 << 64)).to_bytes(8, "big")
             add("seq:cbc:len%d:+%d" % (n, d), seq=s2, hdr3=HDR_TLS12, msg=body, touched=1, **base)
